@@ -68,6 +68,30 @@ def only_modifies(ns, *allowed):
     return S.And(*eqs)
 
 
+def at(seq, k):
+    """seq[k] for an index known to be in range and non-negative (no negative-index normalisation, so the
+    term can serve as an instantiation trigger)"""
+    from pyvc.values import VTupSeq, VTuple
+    k = _lift(k)
+    if isinstance(seq, VTupSeq):
+        return VTuple([VInt(smt.sat(c, k.t)) for c in seq.cols])
+    return VInt(smt.sat(seq.t, k.t))
+
+
+def header_is(new, at_, ll, value):
+    """new[at:at+ll] is the ll-byte big-endian encoding of value"""
+    return VInt(smt.s_val(smt.s_slice(new.t, _lift(at_).t, (at_ + ll).t))) == value
+
+
+def sval_frame(new, old):
+    """groups lying inside the old content decode to the same values in the new content"""
+    from pyvc.values import fresh_name
+    lo, hi = z3.Int(fresh_name('flo')), z3.Int(fresh_name('fhi'))
+    return VBool(z3.ForAll([lo, hi], z3.Implies(z3.And(0 <= lo, lo <= hi, hi <= smt.slen(old.t)),
+                                                smt.s_val(smt.s_slice(new.t, lo, hi)) == smt.s_val(smt.s_slice(old.t, lo, hi))),
+                           patterns=[smt.s_slice(new.t, lo, hi)]))
+
+
 def appended(ns, enc):
     """self.bytes == old self.bytes ++ enc, only self.bytes changed"""
     new, old = wbytes(ns), wbytes(ns.old)
@@ -81,13 +105,19 @@ def prefix_kept(ns):
     """old content of self.bytes is a prefix of the new content; only self.bytes changed"""
     new, old = wbytes(ns), wbytes(ns.old)
     return S.And(S.len_(new) >= S.len_(old),
-                 S.forall(lambda k: new[k] == old[k], 0, S.len_(old)),
+                 S.forall(lambda k: at(new, k) == at(old, k), 0, S.len_(old)),
+                 sval_frame(new, old),
                  only_modifies(ns, (ns.self, 'bytes')))
 
 
 def unchanged(ns):
     new, old = wbytes(ns), wbytes(ns.old)
     return S.And(S.seq_eq(new, old), only_modifies(ns, (ns.self, 'bytes')))
+
+
+def div(a, b):
+    """floor division for a positive divisor (spec side)"""
+    return VInt(_lift(a).t / _lift(b).t)
 
 
 def fits(x, n):
@@ -117,7 +147,10 @@ contract(C + 'Writer.add',
          params={'self': WRITER, 'x': T.int(), 'length': T.int()},
          result=T.none(), modifies=[('self', 'bytes')],
          ensures=lambda ns: S.And(fits_n(ns.x, ns.length), appended(ns, S.be_n(ns.x, ns.length)),
-                                  S.len_(wbytes(ns)) == S.len_(wbytes(ns.old)) + ns.length),
+                                  S.len_(wbytes(ns)) == S.len_(wbytes(ns.old)) + ns.length,
+                                  # the appended group decodes to x (consequence, stated for callers)
+                                  header_is(wbytes(ns), S.len_(wbytes(ns.old)), ns.length, ns.x),
+                                  sval_frame(wbytes(ns), wbytes(ns.old))),
          raises={ValueError: ('iff', lambda ns: S.Not(fits_n(ns.x, ns.length)))},
          exc_ensures=unchanged,
          prop=PROP,
@@ -213,3 +246,335 @@ contract(C + 'Parser.getRemainingLength',
          params={'self': PARSER}, requires=p_inv, result=T.int(),
          ensures=lambda ns: S.And(ns.result == S.len_(pf(ns, 'bytes')) - pf(ns, 'index'), ns.result >= 0, p_same(ns)),
          raises={}, prop=PROP, doc='number of unread bytes (>= 0), no state change')
+
+
+def lenfield(ns, ll):
+    """value of the ll-byte length field at the entry index"""
+    return S.be_val(chunk(ns, 0, ll))
+
+
+def var_short(ns, ll):
+    """length field itself truncated, or fewer bytes left than it declares"""
+    return S.Or(short(ns, ll), pf(ns, 'index') + ll + lenfield(ns, ll) > S.len_(pf(ns, 'bytes')))
+
+
+contract(C + 'Parser.getVarBytes',
+         params={'self': PARSER, 'lengthLength': T.int()},
+         requires=lambda ns: p_inv(ns) & (ns.lengthLength >= 0),
+         result=T.bytes(), modifies=[('self', 'index')],
+         ensures=lambda ns: (lambda n: S.And(
+             S.seq_eq(ns.result, chunk(ns.old, ns.lengthLength, n)),
+             S.len_(ns.result) == n, S.is_bytes(ns.result),
+             p_advanced(ns, ns.lengthLength + n)))(lenfield(ns.old, ns.lengthLength)),
+         raises={DecodeError: ('iff', lambda ns: var_short(ns, ns.lengthLength))},
+         prop=PROP,
+         doc='reads an ll-byte length n, returns exactly the next n bytes, consumes ll+n; DecodeError iff the '
+             'length field or the declared body is truncated')
+
+contract(C + 'Parser.startLengthCheck',
+         params={'self': PARSER, 'lengthLength': T.int()},
+         requires=lambda ns: p_inv(ns) & (ns.lengthLength >= 0),
+         result=T.none(), modifies=[('self', 'index'), ('self', 'lengthCheck'), ('self', 'indexCheck')],
+         ensures=lambda ns: S.And(pf(ns, 'lengthCheck') == lenfield(ns.old, ns.lengthLength),
+                                  pf(ns, 'lengthCheck') >= 0, pf(ns, 'lengthCheck') < S.pow256(ns.lengthLength),
+                                  pf(ns, 'indexCheck') == pf(ns, 'index'),
+                                  pf(ns, 'index') == pf(ns.old, 'index') + ns.lengthLength, p_inv(ns),
+                                  only_modifies(ns, (ns.self, 'index'), (ns.self, 'lengthCheck'), (ns.self, 'indexCheck'))),
+         raises={DecodeError: ('iff', lambda ns: short(ns, ns.lengthLength))},
+         exc_ensures=p_same, prop=PROP,
+         doc='reads the ll-byte declared length into lengthCheck and marks the start of the structure')
+
+contract(C + 'Parser.setLengthCheck',
+         params={'self': PARSER, 'length': T.int()},
+         result=T.none(), modifies=[('self', 'lengthCheck'), ('self', 'indexCheck')],
+         ensures=lambda ns: S.And(pf(ns, 'lengthCheck') == ns.length, pf(ns, 'indexCheck') == pf(ns, 'index'),
+                                  only_modifies(ns, (ns.self, 'lengthCheck'), (ns.self, 'indexCheck'))),
+         raises={}, prop=PROP, doc='declares the structure length, marks its start; index untouched')
+
+
+def consumed(ns):
+    return pf(ns, 'index') - pf(ns, 'indexCheck')
+
+
+contract(C + 'Parser.stopLengthCheck',
+         params={'self': PARSER}, result=T.none(),
+         ensures=lambda ns: S.And(consumed(ns) == pf(ns, 'lengthCheck'), only_modifies(ns)),
+         raises={DecodeError: ('iff', lambda ns: consumed(ns) != pf(ns, 'lengthCheck'))},
+         exc_ensures=lambda ns: only_modifies(ns), prop=PROP,
+         doc='returns normally iff exactly lengthCheck bytes were consumed since the mark (no trailing bytes, no overrun); '
+             'otherwise DecodeError; no state change')
+
+contract(C + 'Parser.atLengthCheck',
+         params={'self': PARSER}, result=T.bool(),
+         ensures=lambda ns: S.And(S.iff(ns.result, consumed(ns) == pf(ns, 'lengthCheck')),
+                                  consumed(ns) <= pf(ns, 'lengthCheck'), only_modifies(ns)),
+         raises={DecodeError: ('iff', lambda ns: consumed(ns) > pf(ns, 'lengthCheck'))},
+         exc_ensures=lambda ns: only_modifies(ns), prop=PROP,
+         doc='True iff exactly lengthCheck bytes consumed, False iff fewer, DecodeError iff more; no state change')
+
+
+def p_mono(ns):
+    """exceptional exits: index only moved forward, still inside the buffer; nothing else modified"""
+    return S.And(pf(ns, 'index') >= pf(ns.old, 'index'), p_inv(ns), only_modifies(ns, (ns.self, 'index')))
+
+
+REG.tasks[C + 'Parser.getVarBytes#Parser.getVarBytes'].exc_ensures = p_mono
+
+
+def elem_at(bytes_, base, k, n):
+    """value of the k-th n-byte element of the array starting at offset base of bytes_"""
+    return VInt(smt.s_val(smt.s_slice(bytes_.t, (base + k * n).t, (base + k * n + n).t)))
+
+
+def list_decodes(lst, bytes_, base, n, count):
+    """lst == [value of element k for k in range(count)]"""
+    return S.And(S.len_(lst) == count,
+                 S.forall(lambda k: at(lst, k) == elem_at(bytes_, base, k, n), 0, count))
+
+
+def inv_fixlist(ns):
+    i0 = pf(ns.old, 'index')
+    return S.And(pf(ns, 'index') == i0 + ns.idx * ns.length,
+                 p_inv(ns),
+                 S.len_(ns.l) == S.max_(ns.lengthList, 0),
+                 S.forall(lambda k: at(ns.l, k) == elem_at(pf(ns, 'bytes'), i0, k, ns.length), 0, ns.idx))
+
+
+contract(C + 'Parser.getFixList',
+         params={'self': PARSER, 'length': T.int(), 'lengthList': T.int()},
+         requires=lambda ns: S.And(p_inv(ns), ns.length >= 0, ns.lengthList >= 0),
+         result=T.ints(), modifies=[('self', 'index')],
+         ensures=lambda ns: S.And(list_decodes(ns.result, pf(ns.old, 'bytes'), pf(ns.old, 'index'), ns.length, ns.lengthList),
+                                  p_advanced(ns, ns.length * ns.lengthList)),
+         raises={DecodeError: ('iff', lambda ns: short(ns, ns.length * ns.lengthList))},
+         exc_ensures=p_mono,
+         loops={1: LoopSpec(inv_fixlist, variant=lambda ns: ns.lengthList - ns.idx,
+                            modifies_fields=[('self', 'index')], fingerprint='range(lengthList)')},
+         prop=PROP,
+         doc='returns the lengthList big-endian length-byte integers at the old index, consumes exactly '
+             'length*lengthList bytes; DecodeError iff fewer remain')
+
+
+def varlist_bad(ns, ll, unit):
+    """length field truncated, or declared length not a multiple of the element size, or body truncated"""
+    n = lenfield(ns, ll)
+    return S.Or(short(ns, ll), S.And(S.Not(short(ns, ll)), S.Or(n % unit != 0, short(ns, ll + n))))
+
+
+contract(C + 'Parser.getVarList',
+         params={'self': PARSER, 'length': T.int(), 'lengthLength': T.int()},
+         requires=lambda ns: S.And(p_inv(ns), ns.length >= 1, ns.lengthLength >= 0),
+         result=T.ints(), modifies=[('self', 'index')],
+         ensures=lambda ns: (lambda n: S.And(
+             n % ns.length == 0,
+             list_decodes(ns.result, pf(ns.old, 'bytes'), pf(ns.old, 'index') + ns.lengthLength, ns.length, div(n, ns.length)),
+             S.len_(ns.result) * ns.length == n,
+             p_advanced(ns, ns.lengthLength + n)))(lenfield(ns.old, ns.lengthLength)),
+         raises={DecodeError: ('iff', lambda ns: varlist_bad(ns, ns.lengthLength, ns.length))},
+         exc_ensures=p_mono,
+         loops={1: LoopSpec(inv_fixlist, variant=lambda ns: ns.lengthList - ns.idx,
+                            modifies_fields=[('self', 'index')], fingerprint='range(lengthList)')},
+         prop=PROP,
+         doc='reads an ll-byte byte-length n; n must be a multiple of the element size; returns the n/length '
+             'elements and consumes exactly ll+n bytes; DecodeError iff length field truncated, n not a multiple, '
+             'or body truncated')
+
+
+# --- Parser.getVarTupleList (tuple arity is a literal at every call site; proved per arity) -------------
+from pyvc import tupseq  # noqa: registers iteration over symbolic-length tuple lists
+
+
+def tuples_decode(lst, arity, bytes_, base, n, count):
+    """lst == [(element k*arity, ..., element k*arity+arity-1) for k in range(count)]"""
+    return S.And(S.len_(lst) == count,
+                 S.forall(lambda k: S.And(*[at(lst, k)[c] == elem_at(bytes_, base, k * arity + c, n)
+                                            for c in range(arity)]), 0, count))
+
+
+def _inv_tuplelist(arity):
+    def inv(ns):
+        i0 = pf(ns.old, 'index')
+        return S.And(pf(ns, 'index') == i0 + ns.idx * arity * ns.elemLength,
+                     p_inv(ns),
+                     tuples_decode(ns.tupleList, arity, pf(ns, 'bytes'), i0, ns.elemLength, ns.idx))
+    return inv
+
+
+def _tuplelist_contract(arity):
+    return dict(
+        params={'self': PARSER, 'elemLength': T.int(), 'elemNum': T.const(arity), 'lengthLength': T.int()},
+        requires=lambda ns: S.And(p_inv(ns), ns.elemLength >= 1, ns.elemNum == arity, ns.lengthLength >= 0),
+        result=T.tuples(arity), modifies=[('self', 'index')],
+        ensures=lambda ns: (lambda n: S.And(
+            n % (ns.elemLength * arity) == 0,
+            tuples_decode(ns.result, arity, pf(ns.old, 'bytes'), pf(ns.old, 'index') + ns.lengthLength,
+                          ns.elemLength, div(n, ns.elemLength * arity)),
+            S.len_(ns.result) * arity * ns.elemLength == n,
+            p_advanced(ns, ns.lengthLength + n)))(lenfield(ns.old, ns.lengthLength)),
+        raises={DecodeError: ('iff', lambda ns: varlist_bad(ns, ns.lengthLength, ns.elemLength * arity))},
+        exc_ensures=p_mono,
+        loops={1: LoopSpec(_inv_tuplelist(arity), variant=lambda ns: ns.tupleCount - ns.idx,
+                           modifies_fields=[('self', 'index')], modifies_vars=['tupleList'],
+                           var_types={'tupleList': T.tuples(arity)}, fingerprint='range(tupleCount)')},
+        prop=PROP,
+        doc='reads an ll-byte byte-length n (multiple of the tuple size), returns the n/(%d*elemLength) tuples, '
+            'consumes exactly ll+n bytes; DecodeError iff length field truncated, n not a multiple, or body '
+            'truncated (tuple arity %d)' % (arity, arity))
+
+
+contract(C + 'Parser.getVarTupleList', **_tuplelist_contract(2))
+REG.note('C15', 'assumptions', 'Parser.getVarTupleList / Writer.addVarTupleSeq are proved for tuple arity 2 (the only arity '
+         'used in /repo: signature-algorithm pairs); element size and length-field size are arbitrary')
+
+
+# ===========================================================================
+# Writer: sequences.  The appended region is characterised by what it decodes to: together with
+# "all bytes" and the exact length this determines every appended byte (big-endian encoding is injective
+# on fixed width: smt._be_axioms encode(decode(b)) == b).
+# ===========================================================================
+
+def _static(seq):
+    """items of a statically known list/tuple argument (e.g. one tuple of a tuple list), else None"""
+    from pyvc.values import VList, VTuple
+    return list(seq.items) if isinstance(seq, (VList, VTuple)) else None
+
+
+def all_fit(seq, n, count=None):
+    """every element of seq fits in n bytes"""
+    if _static(seq) is not None and count is None:
+        return S.And(*[S.And(x >= 0, x < S.pow256(n)) for x in _static(seq)])
+    return S.forall(lambda k: S.And(at(seq, k) >= 0, at(seq, k) < S.pow256(n)), 0, S.len_(seq) if count is None else count)
+
+
+def region_decodes(new, base, seq, n, count=None):
+    """for every k: new[base+k*n : base+(k+1)*n] is the n-byte big-endian encoding of seq[k]"""
+    if _static(seq) is not None and count is None:
+        return S.And(*[elem_at(new, base, k, n) == x for k, x in enumerate(_static(seq))])
+    return S.forall(lambda k: elem_at(new, base, k, n) == at(seq, k), 0, S.len_(seq) if count is None else count)
+
+
+def inv_addfixseq(ns):
+    cur, old0 = wbytes(ns), wbytes(ns.old)
+    return S.And(S.len_(cur) == S.len_(old0) + ns.idx * ns.length,
+                 S.is_bytes(cur),
+                 S.forall(lambda k: at(cur, k) == at(old0, k), 0, S.len_(old0)),
+                 sval_frame(cur, old0),
+                 all_fit(ns.seq, ns.length, ns.idx),
+                 # arithmetic fact carried inductively (keeps the solver in linear arithmetic): group k ends
+                 # inside the part written so far
+                 S.forall(lambda k: k * ns.length + ns.length <= ns.idx * ns.length, 0, ns.idx),
+                 region_decodes(cur, S.len_(old0), ns.seq, ns.length, ns.idx))
+
+
+contract(C + 'Writer.addFixSeq',
+         params={'self': WRITER, 'seq': T.ints(), 'length': T.int()},
+         requires=lambda ns: ns.length >= 0,
+         result=T.none(), modifies=[('self', 'bytes')],
+         ensures=lambda ns: S.And(all_fit(ns.seq, ns.length),
+                                  S.len_(wbytes(ns)) == S.len_(wbytes(ns.old)) + S.len_(ns.seq) * ns.length,
+                                  S.is_bytes(wbytes(ns)),
+                                  region_decodes(wbytes(ns), S.len_(wbytes(ns.old)), ns.seq, ns.length),
+                                  prefix_kept(ns)),
+         raises={ValueError: ('iff', lambda ns: S.Not(all_fit(ns.seq, ns.length)))},
+         exc_ensures=prefix_kept,
+         loops={1: LoopSpec(inv_addfixseq, variant=lambda ns: S.len_(ns.seq) - ns.idx,
+                            modifies_fields=[('self', 'bytes')], fingerprint='seq')},
+         prop=PROP,
+         doc='appends len(seq)*length bytes, the k-th length-byte group being the big-endian encoding of seq[k]; '
+             'ValueError iff some element is outside [0, 256**length); old content stays a prefix')
+
+
+def varseq_fits(ns):
+    return S.And(S.len_(ns.seq) * ns.length < S.pow256(ns.lengthLength), all_fit(ns.seq, ns.length))
+
+
+contract(C + 'Writer.addVarSeq',
+         params={'self': WRITER, 'seq': T.ints(), 'length': T.int(), 'lengthLength': T.int()},
+         requires=lambda ns: (ns.length >= 0) & (ns.lengthLength >= 0),
+         result=T.none(), modifies=[('self', 'bytes')],
+         ensures=lambda ns: (lambda new, b0, n: S.And(
+             varseq_fits(ns),
+             S.len_(new) == b0 + ns.lengthLength + n, S.is_bytes(new),
+             header_is(new, b0, ns.lengthLength, n),
+             region_decodes(new, b0 + ns.lengthLength, ns.seq, ns.length),
+             prefix_kept(ns)))(wbytes(ns), S.len_(wbytes(ns.old)), S.len_(ns.seq) * ns.length),
+         raises={ValueError: ('iff', lambda ns: S.Not(varseq_fits(ns)))},
+         exc_ensures=prefix_kept,
+         loops={1: LoopSpec(inv_addfixseq, variant=lambda ns: S.len_(ns.seq) - ns.idx,
+                            modifies_fields=[('self', 'bytes')], fingerprint='seq')},
+         prop=PROP,
+         doc='appends the lengthLength-byte byte-count len(seq)*length followed by the length-byte big-endian '
+             'encodings of the elements (all three code paths: extend / struct.pack / add loop); ValueError iff the '
+             'byte-count does not fit the length field or an element does not fit; old content stays a prefix')
+
+
+# --- Writer.addVarTupleSeq (arity 2) -----------------------------------------------------------------
+def tuples_fit(seq, arity, n, count=None):
+    return S.forall(lambda k: S.And(*[S.And(at(seq, k)[c] >= 0, at(seq, k)[c] < S.pow256(n)) for c in range(arity)]),
+                    0, S.len_(seq) if count is None else count)
+
+
+def tuples_region(new, base, seq, arity, n, count=None):
+    return S.forall(lambda k: S.And(*[elem_at(new, base, k * arity + c, n) == at(seq, k)[c] for c in range(arity)]),
+                    0, S.len_(seq) if count is None else count)
+
+
+def _inv_addtuples(arity):
+    def inv(ns):
+        cur, old0 = wbytes(ns), wbytes(ns.old)
+        return S.And(S.len_(cur) == S.len_(old0) + ns.idx * arity * ns.length,
+                     S.is_bytes(cur),
+                     S.forall(lambda k: at(cur, k) == at(old0, k), 0, S.len_(old0)),
+                     sval_frame(cur, old0),
+                     tuples_fit(ns.seq, arity, ns.length, ns.idx),
+                     S.forall(lambda k: k * arity * ns.length + arity * ns.length <= ns.idx * arity * ns.length, 0, ns.idx),
+                     tuples_region(cur, S.len_(old0), ns.seq, arity, ns.length, ns.idx))
+    return inv
+
+
+def _vartuple_fits(arity):
+    return lambda ns: S.And(S.len_(ns.seq) * arity * ns.length < S.pow256(ns.lengthLength),
+                            tuples_fit(ns.seq, arity, ns.length))
+
+
+def _vartupleseq_contract(arity):
+    ok = _vartuple_fits(arity)
+    ls = LoopSpec(_inv_addtuples(arity), variant=lambda ns: S.len_(ns.seq) - ns.idx,
+                  modifies_fields=[('self', 'bytes')], fingerprint='seq')
+    return dict(
+        params={'self': WRITER, 'seq': T.tuples(arity), 'length': T.int(), 'lengthLength': T.int()},
+        requires=lambda ns: (ns.length >= 0) & (ns.lengthLength >= 0),
+        result=T.none(), modifies=[('self', 'bytes')],
+        ensures=lambda ns: (lambda new, b0, n: S.And(
+            ok(ns),
+            S.len_(new) == b0 + ns.lengthLength + n, S.is_bytes(new),
+            header_is(new, b0, ns.lengthLength, n),
+            tuples_region(new, b0 + ns.lengthLength, ns.seq, arity, ns.length),
+            prefix_kept(ns)))(wbytes(ns), S.len_(wbytes(ns.old)), S.len_(ns.seq) * arity * ns.length),
+        raises={ValueError: ('iff', lambda ns: S.Not(ok(ns)))},
+        exc_ensures=prefix_kept,
+        loops={1: ls, 2: ls},
+        prop=PROP,
+        doc='appends the lengthLength-byte byte-count len(seq)*%d*length and then every tuple element as a '
+            'length-byte big-endian integer; ValueError iff the byte-count or an element does not fit; old content '
+            'stays a prefix (tuple arity %d)' % (arity, arity))
+
+
+contract(C + 'Writer.addVarTupleSeq', **_vartupleseq_contract(2))
+
+
+contract(C + 'Writer.add_var_bytes',
+         params={'self': WRITER, 'data': T.bytes(), 'length_length': T.int()},
+         result=T.none(), modifies=[('self', 'bytes')],
+         ensures=lambda ns: (lambda new, b0, n, ll: S.And(
+             fits_n(n, ll),
+             S.seq_eq(new, S.cat(wbytes(ns.old), S.be_n(n, ll), ns.data)),
+             S.len_(new) == b0 + ll + n, S.is_bytes(new),
+             header_is(new, b0, ll, n),
+             S.forall(lambda k: at(new, b0 + ll + k) == at(ns.data, k), 0, n),
+             prefix_kept(ns)))(wbytes(ns), S.len_(wbytes(ns.old)), S.len_(ns.data), ns.length_length),
+         raises={ValueError: ('iff', lambda ns: S.Not(fits_n(S.len_(ns.data), ns.length_length)))},
+         exc_ensures=unchanged,
+         prop=PROP,
+         doc='appends the length_length-byte big-endian len(data) followed by data verbatim; ValueError iff len(data) '
+             'does not fit the length field (never truncates); buffer unchanged on error')
